@@ -91,9 +91,9 @@ Proof.
   pose proof (forallb_firstn line_ok 10 a H) as H'. pose proof (forallb_firstn (line_avoids q) 10 a A) as A'.
   induction (firstn 10 a) as [|l ls IH]; [reflexivity|].
   cbn [forallb] in H', A'. apply andb_true_iff in H' as [Hl H']. apply andb_true_iff in A' as [Al A'].
-  cbn [map filter existsb]. rewrite (file_marker_feature q l Hl Al).
+  cbn [map filter existsb]. rewrite (file_marker_feature q l Hl).
   destruct l as [c|c st n|ind st n|ind st br n|ind st|st n]; try (cbn [orb]; now apply IH).
-  cbn [existsb]. cbn [line_ok] in Hl. rewrite (file_rules_feature q st n r Hl Al). now rewrite (IH H' A').
+  cbn [existsb]. cbn [line_ok] in Hl. rewrite (file_rules_feature q st n r Hl). now rewrite (IH H' A').
 Qed.
 
 (* ---------- block scan ---------- *)
@@ -107,55 +107,39 @@ Definition state_rel (r : string) (in_block : bool) (rules : list string) (cur :
 
 Lemma scan_past q r v : forall a i in_block rules,
   forallb line_ok a = true -> v < i ->
-  (q_block_end_before q = false \/ block_avoid a i v in_block = true) ->
   block_scan q (map (bl_of q) a) i v r in_block rules = false.
 Proof.
-  induction a as [|l a IH]; intros i in_block rules H L Av; [reflexivity|].
+  induction a as [|l a IH]; intros i in_block rules H L; [reflexivity|].
   cbn [forallb] in H. apply andb_true_iff in H as [Hl H].
   cbn [map block_scan]. unfold bl_of at 1. rewrite (classify_feature q l Hl).
   assert (Ne : (i =? v) = false) by (apply Nat.eqb_neq; lia).
-  destruct l as [c|c st n|ind st n|ind st br n|ind st|st n]; cbn [block_avoid] in Av; rewrite ?Ne in *; cbn [andb] in *.
-  - apply IH; [exact H|lia|exact Av].
-  - apply IH; [exact H|lia|exact Av].
-  - apply IH; [exact H|lia|exact Av].
-  - apply IH; [exact H|lia|exact Av].
-  - assert (C : q_block_end_before q && in_block && cmp_nat block_end_cmp i v && rules_match_violation rules r = false).
-    { destruct Av as [Av|Av]; [now rewrite Av|]. apply andb_true_iff in Av as [Av _]. apply negb_true_iff in Av.
-      change block_end_cmp with CGt. cbn [cmp_nat]. rewrite <- !andb_assoc.
-      rewrite (andb_assoc in_block). rewrite Av. now rewrite andb_false_r. }
-    rewrite C. apply IH; [exact H|lia|]. destruct Av as [Av|Av]; [now left|right]. now apply andb_true_iff in Av as [_ Av].
-  - apply IH; [exact H|lia|exact Av].
+  change block_end_cmp with (@None cmp).
+  destruct l as [c|c st n|ind st n|ind st br n|ind st|st n]; rewrite ?Ne; cbn [andb]; apply IH; try exact H; lia.
 Qed.
 
 Lemma scan_exact q r v : forall a i in_block rules cur,
   forallb line_ok a = true -> forallb (line_avoids q) a = true -> state_rel r in_block rules cur ->
-  (q_block_end_before q = false \/ block_avoid a i v in_block = true) ->
   block_scan q (map (bl_of q) a) i v r in_block rules =
   match open_block a i v cur with Some rs => named rs r | None => false end.
 Proof.
-  induction a as [|l a IH]; intros i in_block rules cur H A St Av; [reflexivity|].
+  induction a as [|l a IH]; intros i in_block rules cur H A St; [reflexivity|].
   cbn [forallb] in H, A. apply andb_true_iff in H as [Hl H]. apply andb_true_iff in A as [Al A].
   cbn [map block_scan open_block]. unfold bl_of at 1. rewrite (classify_feature q l Hl).
-  assert (Other : forall (Hav : q_block_end_before q = false \/
-                                 (if (i =? v) && in_block then true else block_avoid a (S i) v in_block) = true),
+  change block_end_cmp with (@None cmp).
+  assert (Other :
      (if (i =? v) && in_block then rules_match_violation rules r else block_scan q (map (bl_of q) a) (S i) v r in_block rules) =
      match (if i =? v then cur else open_block a (S i) v cur) with Some rs => named rs r | None => false end).
-  { intro Hav. destruct (i =? v) eqn:E; cbn [andb].
+  { destruct (i =? v) eqn:E; cbn [andb].
     - apply Nat.eqb_eq in E. subst i. destruct cur as [rs|]; cbn [state_rel] in St.
       + destruct St as [-> St]. exact St.
-      + subst in_block. apply scan_past; [exact H|lia|]. destruct Hav as [Hav|Hav]; [now left|now right].
-    - apply IH; try assumption. }
-  destruct l as [c|c st n|ind st n|ind st br n|ind st|st n]; cbn [block_avoid] in Av; try (now apply Other).
+      + subst in_block. apply scan_past; [exact H|lia].
+    - apply IH; assumption. }
+  destruct l as [c|c st n|ind st n|ind st br n|ind st|st n]; try exact Other.
   - (* start *)
-    apply IH; [exact H|exact A| |exact Av].
+    apply IH; [exact H|exact A|].
     cbn [state_rel]. split; [reflexivity|]. now apply start_rules_feature.
   - (* end *)
-    assert (C : q_block_end_before q && in_block && cmp_nat block_end_cmp i v && rules_match_violation rules r = false).
-    { destruct Av as [Av|Av]; [now rewrite Av|]. apply andb_true_iff in Av as [Av _]. apply negb_true_iff in Av.
-      change block_end_cmp with CGt. cbn [cmp_nat]. rewrite <- !andb_assoc.
-      rewrite (andb_assoc in_block). rewrite Av. now rewrite andb_false_r. }
-    rewrite C. apply IH; [exact H|exact A|reflexivity|].
-    destruct Av as [Av|Av]; [now left|right]. now apply andb_true_iff in Av as [_ Av].
+    apply IH; [exact H|exact A|reflexivity].
 Qed.
 
 (* ---------- previous line, current line ---------- *)
@@ -175,7 +159,7 @@ Proof.
   change (S (S k) <=? 1) with false. change (S (S k) <? 2) with false. cbn [Nat.sub]. rewrite Nat.sub_0_r.
   rewrite nth_error_prepared. destruct (nth_error a k) as [l|] eqn:E; [|reflexivity]. cbn [option_map pl_next pl_text prepare].
   pose proof (forallb_nth _ _ _ _ H E) as Hl. pose proof (forallb_nth _ _ _ _ A E) as Al.
-  rewrite (next_marker_feature q l Hl Al).
+  rewrite (next_marker_feature q l Hl).
   destruct l as [c|c st n|ind st n|ind st br n|ind st|st n]; try reflexivity.
   now apply next_rules_feature.
 Qed.
@@ -199,10 +183,9 @@ Proof.
 Qed.
 
 Lemma block_exact q a v r : file_ok a = true -> forallb (line_avoids q) a = true -> target_ok a v = true ->
-  (q_block_end_before q = false \/ block_avoid a 1 v false = true) ->
   check_block_ignore q (map pl_block (map (prepare q) (map render_line a))) v r = spec_block a v r.
 Proof.
-  intros H A T Av. unfold check_block_ignore, spec_block, is_valid_line_range.
+  intros H A T. unfold check_block_ignore, spec_block, is_valid_line_range.
   change valid_lo_cmp with CLt. change valid_lo with 0. change valid_hi_cmp with CLe. change block_first_line with 1. cbn [cmp_nat].
   rewrite !map_length.
   unfold target_ok in T. destruct v as [|k]; [discriminate|]. destruct (nth_error a k) as [l|] eqn:E; [|discriminate].
@@ -214,35 +197,28 @@ Qed.
 
 (* ---------- main theorem ---------- *)
 Theorem should_ignore_exact q repo a v r :
-  file_ok a = true -> target_ok a v = true -> nonempty r = true -> avoids q a v = true ->
+  file_ok a = true -> target_ok a v = true -> nonempty r = true -> avoids q a = true ->
   should_ignore q repo (render a) v r = spec repo a v r.
 Proof.
-  intros H T Hr Av. unfold avoids in Av. apply andb_true_iff in Av as [A B].
+  intros H T Hr A. unfold avoids in A.
   unfold should_ignore, spec, should_ignore_lines, should_ignore_pre, is_ignored_in_lines.
   rewrite (lines_of_render q a H A).
   rewrite (file_level_exact q a r H A Hr), (prev_exact q a v r H A), (cur_exact q a v r H A T Hr).
-  rewrite (block_exact q a v r H A T).
-  - now rewrite !orb_assoc.
-  - apply orb_true_iff in B as [B|B]; [left; now apply negb_true_iff in B|now right].
+  rewrite (block_exact q a v r H A T). now rewrite !orb_assoc.
 Qed.
 
-Lemma ideal_avoids q a v :
-  q_splitlines_unicode q = false -> q_next_line_hash_only q = false -> q_file_hash_only q = false ->
-  q_block_end_before q = false -> q_bare_line_unsupported q = false -> q_bare_file_unsupported q = false ->
-  q_start_rules_from_code q = false -> avoids q a v = true.
+(* the two flags whose source variants still deviate; every other flag may have either value *)
+Lemma off_avoids q a :
+  q_splitlines_unicode q = false -> q_start_rules_from_code q = false -> avoids q a = true.
 Proof.
-  intros Q0 Q1 Q2 Q3 Q4 Q5 Q6. unfold avoids. rewrite Q3. cbn [negb orb]. rewrite andb_true_r.
-  apply forallb_forall. intros l _. unfold line_avoids. rewrite Q0, Q1, Q2, Q4, Q5, Q6. cbn [negb orb andb].
+  intros Q0 Q6. unfold avoids. apply forallb_forall. intros l _. unfold line_avoids. rewrite Q0, Q6. cbn [negb orb andb].
   destruct l; reflexivity.
 Qed.
 
-(* all flags off: no restriction beyond the domain *)
 Theorem should_ignore_exact_ideal q repo a v r :
-  q_splitlines_unicode q = false -> q_next_line_hash_only q = false -> q_file_hash_only q = false ->
-  q_block_end_before q = false -> q_bare_line_unsupported q = false -> q_bare_file_unsupported q = false ->
-  q_start_rules_from_code q = false ->
+  q_splitlines_unicode q = false -> q_start_rules_from_code q = false ->
   file_ok a = true -> target_ok a v = true -> nonempty r = true ->
   should_ignore q repo (render a) v r = spec repo a v r.
 Proof.
-  intros Q0 Q1 Q2 Q3 Q4 Q5 Q6 H T Hr. apply should_ignore_exact; try assumption. now apply ideal_avoids.
+  intros Q0 Q6 H T Hr. apply should_ignore_exact; try assumption. now apply off_avoids.
 Qed.
